@@ -145,23 +145,42 @@ def core_zero(w, h, shape):
             '    pub fn %s() {\n%s    }\n' % (CORE_STUBS, core_zero_name(w, h, shape), body))
 
 
-def gblock_name(w, h, px, py):
-    return "c03_gather_block_%dx%d_at_%d_%d" % (w, h, px, py)
+def gblock_name(w, h, px, py, mx0=None):
+    return "c03_gather_block_%dx%d_at_%d_%d" % (w, h, px, py) + ("" if mx0 is None else "_mx%s%d" % ("m" if mx0 < 0 else "p", abs(mx0)))
 
 
-def gblock(w, h, px, py):
-    return ('    #[cfg_attr(kani, kani::proof)]\n    #[cfg_attr(kani, kani::unwind(9))]\n'
-            '    pub fn %s() { block_check::<%d, %d, %d, %d, %d>() }\n' % (gblock_name(w, h, px, py), w, h, w * h, px, py))
+def gblock_range(w, h, big):
+    # half samples: beyond every edge by more than the plane size for the tiny planes; a window around zero otherwise
+    if big:
+        return (3, 3)
+    return (min(2 * (w + 1) + 1, 7), min(2 * (h + 1) + 1, 7))
+
+
+def gblock_slices(w, h, px, py):
+    """[(mx0, mx1, ry)]: the x window cut into slices of 3 values"""
+    big = (w, h, px, py) in gblock_big()
+    rx, ry = gblock_range(w, h, big)
+    step = 2 if big else 3
+    return [(m, min(m + step - 1, rx), ry) for m in range(-rx, rx + 1, step)]
+
+
+def gblock(w, h, px, py, mx0, mx1, ry):
+    return ('    #[cfg_attr(kani, kani::proof)]\n    #[cfg_attr(kani, kani::unwind(%d))]\n'
+            '    pub fn %s() { block_check::<%d, %d, %d, %d, %d, %d, %d, %d>() }\n' % (max(2 * ry + 3, 10), gblock_name(w, h, px, py, mx0), w, h, w * h, px, py, mx0, mx1, ry))
+
+
+def gblock_small():
+    # tiny planes: every interpolation mode and every edge clamp with few samples per block (cheap)
+    return [(1, 1, 0, 0), (3, 2, 0, 0), (2, 3, 0, 0), (9, 5, 8, 0), (5, 9, 0, 8), (3, 3, 8, 0)]
+
+
+def gblock_big():
+    # full 8x8 blocks incl. the copy fast path (expensive: 64 samples x symbolic reference indices)
+    return [(8, 8, 0, 0), (16, 8, 8, 0), (16, 16, 8, 8), (17, 9, 16, 8)]
 
 
 def gblock_all():
-    out = []
-    for (w, h) in ((1, 1), (8, 8), (9, 5), (16, 16), (17, 9)):
-        for px in range(0, w + 8, 8):
-            for py in range(0, h + 8, 8):
-                if px < w + 8 and py < h + 8:
-                    out.append((w, h, px, py))
-    return out
+    return gblock_small() + gblock_big()
 
 
 def idct_name(kind, w, h, bi=None):
@@ -273,3 +292,8 @@ def gsize(rw, rh, nw, nh):
 
 def gsize_all():
     return [(16, 16, 16, 16), (16, 16, 16, 8), (8, 8, 16, 16), (16, 32, 16, 16), (16, 16, 8, 8), (1, 1, 16, 16), (16, 16, 1, 1), (17, 9, 9, 17), (5, 3, 5, 3), (1, 1, 1, 1), (16, 8, 16, 16)]
+
+
+def c17_hdr():
+    return ('    #[cfg_attr(kani, kani::proof)]\n    #[cfg_attr(kani, kani::unwind(11))]\n%s'
+            '    pub fn c17_header_parse_independent() { parse_independent() }\n' % MODEL_STUBS)
